@@ -136,6 +136,30 @@ def check(ix, rep):
         else:
             rep.fail('R-OPSUM', f.module.rel, '%s.update' % c.name, 'dense-online:%s' % nc, 'operator %s: %s' % (nc, opref.diff(nf, want) if nf[0] != 'unknown' else nf[1]), f.node.lineno)
     rep.floor('dense online operators summarised', decided, 18)
+    # 3b. leaves and the comparison table
+    nleaf = 0
+    um = ix.module('rtamt.semantics.abstract_dense_time_online_interpreter')
+    for cname, uc in sorted(um.classes.items()):
+        f = uc.methods.get('visitConstant')
+        if f is not None:
+            nleaf += 1
+            rep.analysed(f)
+            densesum.check_constant_leaf(rep, f, '%s.val' % f.node.args.args[1].arg, 'dense-online:Constant:%s' % cname)
+    rep.floor('dense-time online constant leaves', nleaf, 2)
+    c = ops.get('Predicate')
+    if c is not None:
+        from sa.props import c07 as _c07, c04 as _c04
+        f = c.methods['update']
+        rep.analysed(f)
+        nf = _c07._dense_online_predicate(ix, c)
+        want = ('pointwise', _c04._pred_on_difference())
+        if nf == want:
+            rep.ok('R-OPSUM', f.module.rel, '%s.update' % c.name, 'dense-online:Predicate', 'comparison table over left - right', f.node.lineno)
+        elif nf[0] == 'unknown':
+            rep.error('%s (%s.update): predicate no longer in a summarised idiom (%s)' % (f.where, c.name, nf[1]))
+        else:
+            rep.fail('R-OPSUM', f.module.rel, '%s.update' % c.name, 'dense-online:Predicate', 'the comparison table is %s; the semantics is %s'
+                     % (opref.describe(nf), opref.describe(want)), f.node.lineno)
     # 4. the sliding-window kernels of once[a,b] / historically[a,b]: merge step over the order domain, influence interval
     from sa.rules import stackstep as SS
     nst = 0
